@@ -1,7 +1,7 @@
 (* Proofs about Model/Sparse.v (Elias-Fano sparse vector). *)
 From Coq Require Import NArith List Lia ZArith Bool.
 Require Import SDS.Model.Mach SDS.Model.Bits SDS.Model.Raw SDS.Model.IntVec SDS.Model.BitVec SDS.Model.Sparse.
-Require Import SDS.Spec.BitSeq SDS.Spec.ValSeq SDS.Proofs.BitsProof SDS.Proofs.BVCommon SDS.gen.Consts.
+Require Import SDS.Spec.BitSeq SDS.Spec.ValSeq SDS.Proofs.BitsProof SDS.Proofs.BVCommon SDS.Proofs.SparseSeq SDS.gen.Consts.
 Import ListNotations.
 Open Scope N_scope.
 Require Import ZifyBool ZifyN ZifyNat.
@@ -47,3 +47,1123 @@ Qed.
 
 Lemma get_buckets_too_wide universe w : 64 < w -> get_buckets universe w = Panic PIndex.
 Proof. intros Hw. unfold get_buckets. rewrite low_set_panics by lia. reflexivity. Qed.
+
+(* ---------------------------------------------------------------- machine arithmetic that does not overflow *)
+
+Lemma uadd_ok md a b : a + b < 2 ^ 64 -> uadd md a b = Ok (a + b).
+Proof. intros H. unfold uadd. replace (a + b <? 2 ^ 64) with true by lia. reflexivity. Qed.
+Lemma usub_ok md a b : b <= a -> usub md a b = Ok (a - b).
+Proof. intros H. unfold usub. replace (b <=? a) with true by lia. reflexivity. Qed.
+Lemma ushr_ok md a k : k < 64 -> ushr md a k = Ok (a / 2 ^ k).
+Proof. intros H. unfold ushr. replace (k <? 64) with true by lia. rewrite N.shiftr_div_pow2. reflexivity. Qed.
+Lemma ushl_ok md a k : k < 64 -> a * 2 ^ k < 2 ^ 64 -> ushl md a k = Ok (a * 2 ^ k).
+Proof.
+  intros Hk H. unfold ushl. replace (k <? 64) with true by lia.
+  rewrite N.shiftl_mul_pow2, N.mod_small by exact H. reflexivity.
+Qed.
+
+Lemma split_w_ok md w i : w <= 63 -> split_w md w i = Ok (i / 2 ^ w, i mod 2 ^ w).
+Proof.
+  intros Hw. unfold split_w. rewrite ushr_ok by lia. cbn [bind].
+  rewrite low_set_unchecked_ok by lia. cbn [bind]. rewrite land_ones_mod. reflexivity.
+Qed.
+
+(* division by a positive (variable) divisor *)
+Lemma div_lt_iff a b P : 0 < P -> (a / P < b <-> a < b * P).
+Proof.
+  intros HP. pose proof (N.div_mod a P ltac:(lia)) as Hdm. pose proof (N.mod_lt a P ltac:(lia)) as Hm.
+  split; intros H; nia.
+Qed.
+Lemma div_le_iff a b P : 0 < P -> (a / P <= b <-> a < (b + 1) * P).
+Proof. intros HP. rewrite <- div_lt_iff by exact HP. lia. Qed.
+Lemma div_mod_eq a P : 0 < P -> a = a / P * P + a mod P.
+Proof. intros HP. pose proof (N.div_mod a P ltac:(lia)). lia. Qed.
+Lemma div_mono a b P : 0 < P -> a <= b -> a / P <= b / P.
+Proof. intros HP Hab. apply N.div_le_mono; lia. Qed.
+
+(* ---------------------------------------------------------------- the Elias-Fano code, abstractly *)
+
+(* position in the high part of the one that belongs to the i-th value *)
+Definition one_pos (Vs : list N) (w i : N) : N := nthd Vs i / 2 ^ w + i.
+
+(* H is the unary bucket code of Vs with nb buckets: |Vs| + nb bits, set exactly at the one positions *)
+Definition ef_high_ok (H : list bool) (Vs : list N) (w nb : N) : Prop :=
+  lenB H = lenN Vs + nb /\
+  (forall i, i < lenN Vs -> getb H (one_pos Vs w i) = Some true) /\
+  (forall p, p < lenB H -> (forall i, i < lenN Vs -> p <> one_pos Vs w i) -> getb H p = Some false).
+
+(* the low IntVector stores L *)
+Definition low_ok (v : intvec) (w : N) (L : list N) : Prop :=
+  ilen v = lenN L /\ iwidth v = w /\ forall i, i < lenN L -> iv_get v i = Ok (nthd L i).
+
+(* number of buckets *)
+Definition buckets_of (n w : N) : N := (n + 2 ^ w - 1) / 2 ^ w.
+(* number of values whose high part is <= b *)
+Definition cnt_le (Vs : list N) (w b : N) : N := vs_rank Vs ((b + 1) * 2 ^ w).
+
+Section Code.
+Variables (n w : N) (Vs : list N) (H : list bool).
+Hypothesis Hw : 1 <= w <= 63.
+Hypothesis Hsorted : sorted_le Vs.
+Hypothesis Hbound : bounded n Vs.
+Hypothesis HH : ef_high_ok H Vs w (buckets_of n w).
+
+Local Notation m := (lenN Vs).
+Local Notation nb := (buckets_of n w).
+Local Notation V := (nthd Vs).
+Local Notation op := (one_pos Vs w).
+Local Notation c := (cnt_le Vs w).
+
+Lemma P_pos : 0 < 2 ^ w.
+Proof. apply N.neq_0_lt_0, N.pow_nonzero. lia. Qed.
+
+Lemma nb_spec : n <= nb * 2 ^ w /\ (nb = 0 \/ (nb - 1) * 2 ^ w < n).
+Proof.
+  unfold nb, buckets_of. pose proof P_pos as HP. set (P := 2 ^ w) in *.
+  pose proof (N.div_mod (n + P - 1) P ltac:(lia)) as Hdm. pose proof (N.mod_lt (n + P - 1) P ltac:(lia)) as Hm.
+  set (q := (n + P - 1) / P) in *. split; [nia|]. destruct (N.eq_dec q 0); [left; lia|right; nia].
+Qed.
+
+Lemma hi_lt_nb_val v : v < n -> v / 2 ^ w < nb.
+Proof. intros Hv. apply div_lt_iff; [apply P_pos|]. pose proof nb_spec. lia. Qed.
+
+Lemma hi_lt_nb i : i < m -> V i / 2 ^ w < nb.
+Proof.
+  intros Hi. apply div_lt_iff; [apply P_pos|]. pose proof (Hbound i Hi). pose proof nb_spec. lia.
+Qed.
+
+Lemma H_len : lenB H = m + nb.
+Proof. apply HH. Qed.
+
+Lemma op_lt_len i : i < m -> op i < lenB H.
+Proof. intros Hi. rewrite H_len. pose proof (hi_lt_nb i Hi). unfold one_pos in *. lia. Qed.
+
+Lemma hi_mono i j : i <= j -> j < m -> V i / 2 ^ w <= V j / 2 ^ w.
+Proof. intros Hij Hj. apply div_mono; [apply P_pos|]. apply Hsorted; assumption. Qed.
+
+Lemma op_mono i j : i < j -> j < m -> op i < op j.
+Proof. intros Hij Hj. pose proof (hi_mono i j ltac:(lia) Hj). unfold one_pos in *. lia. Qed.
+
+Lemma H_one i : i < m -> getb H (op i) = Some true.
+Proof. apply HH. Qed.
+
+(* the gap before the j-th one (j = m: the tail): every bit there is unset *)
+Lemma H_gap j p : j <= m -> (j = 0 \/ op (j - 1) < p) -> (j < m -> p < op j) -> p < lenB H ->
+  getb H p = Some false.
+Proof.
+  intros Hj Hlo Hhi Hp. apply HH; [exact Hp|]. intros i Hi Heq.
+  destruct (N.lt_ge_cases i j) as [Hij|Hij].
+  - destruct Hlo as [->|Hlo]; [lia|].
+    destruct (N.eq_dec i (j - 1)) as [->|Hne]; [lia|].
+    pose proof (op_mono i (j - 1) ltac:(lia) ltac:(lia)). lia.
+  - destruct (N.eq_dec i j) as [->|Hne]; [specialize (Hhi Hi); lia|].
+    pose proof (op_mono j i ltac:(lia) Hi). specialize (Hhi ltac:(lia)). lia.
+Qed.
+
+(* the number of ones before any position of the j-th gap, including its closing one position, is j *)
+Lemma H_rank_gap j : forall p, N.of_nat j <= m ->
+  (j = 0%nat \/ op (N.of_nat j - 1) < p) -> (N.of_nat j < m -> p <= op (N.of_nat j)) -> p <= lenB H ->
+  rank1 H p = N.of_nat j.
+Proof.
+  induction j as [|j IH]; intros p Hj Hlo Hhi Hp.
+  - rewrite (sq_rank1_gap H 0 p); [apply sq_rank1_0|lia|].
+    intros q Hq. apply (H_gap 0 q); [lia|left; reflexivity| |lia]. intros H0. specialize (Hhi H0). cbn in *. lia.
+  - destruct Hlo as [Hlo|Hlo]; [discriminate|].
+    replace (N.of_nat (S j) - 1) with (N.of_nat j) in Hlo by lia.
+    (* ones before op j: j; the bit at op j; then a gap up to p *)
+    assert (Hjm : N.of_nat j < m) by lia.
+    assert (Hr : rank1 H (op (N.of_nat j)) = N.of_nat j).
+    { apply IH; [lia| |lia|pose proof (op_lt_len _ Hjm); lia].
+      destruct j as [|j']; [left; reflexivity|right].
+      apply op_mono; lia. }
+    rewrite (sq_rank1_gap H (op (N.of_nat j) + 1) p); [|lia|].
+    + rewrite (sq_rank1_succ H _ true) by (apply H_one; exact Hjm). rewrite Hr. cbn [b2n]. lia.
+    + intros q Hq. apply (H_gap (N.of_nat (S j)) q); [lia| | |lia].
+      * right. replace (N.of_nat (S j) - 1) with (N.of_nat j) by lia. lia.
+      * intros Hlt. specialize (Hhi Hlt). lia.
+Qed.
+
+Lemma H_rank_op i : i < m -> rank1 H (op i) = i.
+Proof.
+  intros Hi. rewrite <- (N2Nat.id i) at 2. apply H_rank_gap; rewrite ?N2Nat.id; [lia| |lia|pose proof (op_lt_len i Hi); lia].
+  destruct (N.eq_dec i 0) as [->|Hne]; [left; reflexivity|right]. apply op_mono; lia.
+Qed.
+
+Lemma H_select1 i : i < m -> select1 H i = Some (op i).
+Proof. intros Hi. rewrite <- (H_rank_op i Hi) at 1. apply sq_select1_rank, H_one, Hi. Qed.
+
+(* counting by high part *)
+Lemma c_le_m b : c b <= m.
+Proof. apply vs_rank_le_len. Qed.
+Lemma c_lt i b : i < c b -> V i / 2 ^ w <= b.
+Proof. intros Hi. apply div_le_iff; [apply P_pos|]. apply (vs_rank_lt Vs _ i Hsorted Hi). Qed.
+Lemma c_ge i b : c b <= i -> i < m -> b < V i / 2 ^ w.
+Proof.
+  intros Hi Him. pose proof (vs_rank_ge Vs _ i Hsorted Hi Him) as Hge.
+  destruct (N.lt_ge_cases b (V i / 2 ^ w)) as [|Hc]; [assumption|].
+  apply div_le_iff in Hc; [lia|apply P_pos].
+Qed.
+Lemma c_mono b b' : b <= b' -> c b <= c b'.
+Proof.
+  intros Hb. destruct (N.le_gt_cases (c b) (c b')) as [|Hgt]; [assumption|exfalso].
+  assert (Hi : c b' < m) by (pose proof (c_le_m b); lia).
+  pose proof (c_lt (c b') b Hgt). pose proof (c_ge (c b') b' ltac:(lia) Hi). lia.
+Qed.
+
+(* the unset bit that closes bucket b sits at b + c b, in the gap before the one of value c b *)
+Lemma H_zero_gap b : b < nb ->
+  (c b = 0 \/ op (c b - 1) < b + c b) /\ (c b < m -> b + c b < op (c b)) /\ b + c b < lenB H.
+Proof.
+  intros Hb. pose proof (c_le_m b) as Hcm. split; [|split].
+  - destruct (N.eq_dec (c b) 0) as [->|Hne]; [left; reflexivity|right].
+    pose proof (c_lt (c b - 1) b ltac:(lia)). unfold one_pos. lia.
+  - intros Hlt. pose proof (c_ge (c b) b ltac:(lia) Hlt). unfold one_pos. lia.
+  - rewrite H_len. lia.
+Qed.
+
+Lemma H_zero b : b < nb -> getb H (b + c b) = Some false.
+Proof.
+  intros Hb. destruct (H_zero_gap b Hb) as [Hlo [Hhi Hlen]].
+  apply (H_gap (c b)); [apply c_le_m|exact Hlo|exact Hhi|exact Hlen].
+Qed.
+
+Lemma H_rank_zero b : b < nb -> rank1 H (b + c b) = c b.
+Proof.
+  intros Hb. destruct (H_zero_gap b Hb) as [Hlo [Hhi Hlen]]. pose proof (c_le_m b) as Hcm.
+  rewrite <- (N2Nat.id (c b)) at 2. apply H_rank_gap; rewrite ?N2Nat.id; [exact Hcm| | |lia].
+  - destruct Hlo as [Hz|Hlo]; [left; lia|right; exact Hlo].
+  - intros Hlt. specialize (Hhi Hlt). lia.
+Qed.
+
+Lemma H_select0 b : b < nb -> select0 H b = Some (b + c b).
+Proof.
+  intros Hb. pose proof (sq_select0_rank H (b + c b) (H_zero b Hb)) as Hs.
+  rewrite (H_rank_zero b Hb) in Hs. replace (b + c b - c b) with b in Hs by lia. exact Hs.
+Qed.
+
+End Code.
+
+(* ---------------------------------------------------------------- small facts about the embedded structures *)
+
+Lemma bits_of_words_length ws : length (bits_of_words ws) = (64 * length ws)%nat.
+Proof.
+  unfold bits_of_words. induction ws as [|x t IH]; cbn [flat_map length]; [reflexivity|].
+  rewrite app_length, wbits_length, IH. lia.
+Qed.
+
+Lemma bits_of_lenB len ws : len <= 64 * lenN ws -> lenB (bits_of len ws) = len.
+Proof.
+  intros Hl. unfold lenB, bits_of, lenN in *. rewrite firstn_length, bits_of_words_length. lia.
+Qed.
+
+Lemma raw_wf_room r : raw_wf r -> rlen r <= 64 * lenN (rdata r) /\ 64 * lenN (rdata r) < rlen r + 64.
+Proof. intros [Hl _]. rewrite Hl. lia. Qed.
+
+Lemma bv_repr_len b B : bv_repr b B -> lenB B = bv_len b /\ bv_len b < 2 ^ 64.
+Proof.
+  intros [Hwf [HB _]]. split.
+  - rewrite HB. apply bits_of_lenB. apply raw_wf_room, Hwf.
+  - apply Hwf.
+Qed.
+
+Lemma nthd_map f l i : i < lenN l -> nthd (map f l) i = f (nthd l i).
+Proof.
+  revert i. induction l as [|a t IH]; intros i Hi; [unfold lenN in Hi; cbn in Hi; lia|].
+  rewrite lenN_cons in Hi. cbn [map]. rewrite !nthd_cons. destruct (N.eqb_spec i 0); [reflexivity|]. apply IH. lia.
+Qed.
+Lemma lenN_map {A B} (f : A -> B) l : lenN (map f l) = lenN l.
+Proof. unfold lenN. rewrite map_length. reflexivity. Qed.
+
+(* ---------------------------------------------------------------- queries over an abstract well-formed vector *)
+
+(* sv represents the (multi)set Vs in the universe [0, n) with low width w, through the bit sequence H *)
+Definition sv_ok (sp : selpath) (md : mode) (sv : sparse) (n w : N) (Vs : list N) (H : list bool) : Prop :=
+  n < 2 ^ 64 /\ 1 <= w <= 63 /\ sorted_le Vs /\ bounded n Vs /\
+  sv_len sv = n /\
+  ef_high_ok H Vs w (buckets_of n w) /\
+  bv_select_ok sp md (sv_high sv) H /\
+  low_ok (sv_low sv) w (map (fun v => v mod 2 ^ w) Vs).
+
+Section Queries.
+Variables (sp : selpath) (md : mode) (sv : sparse) (n w : N) (Vs : list N) (H : list bool).
+Hypothesis Hok : sv_ok sp md sv n w Vs H.
+
+Local Notation m := (lenN Vs).
+Local Notation nb := (buckets_of n w).
+Local Notation V := (nthd Vs).
+Local Notation op := (one_pos Vs w).
+Local Notation c := (cnt_le Vs w).
+Local Notation hb := (sv_high sv).
+
+Let Hn : n < 2 ^ 64. Proof. apply Hok. Qed.
+Let Hw : 1 <= w <= 63. Proof. apply Hok. Qed.
+Let Hsorted : sorted_le Vs. Proof. apply Hok. Qed.
+Let Hbound : bounded n Vs. Proof. apply Hok. Qed.
+Let Hlen : sv_len sv = n. Proof. apply Hok. Qed.
+Let HH : ef_high_ok H Vs w nb. Proof. apply Hok. Qed.
+Let Hhigh : bv_select_ok sp md hb H. Proof. apply Hok. Qed.
+Let Hlow : low_ok (sv_low sv) w (map (fun v => v mod 2 ^ w) Vs). Proof. apply Hok. Qed.
+
+Lemma q_P_pos : 0 < 2 ^ w. Proof. exact (P_pos w Hw). Qed.
+
+Lemma q_hb_len : bv_len hb = m + nb /\ m + nb < 2 ^ 64.
+Proof.
+  destruct Hhigh as [Hr _]. destruct (bv_repr_len _ _ Hr) as [Hl Hlt].
+  rewrite <- Hl, (H_len n w Vs H HH). split; [reflexivity|]. rewrite <- Hl in Hlt.
+  rewrite (H_len n w Vs H HH) in Hlt. exact Hlt.
+Qed.
+
+Lemma q_lenB : lenB H = m + nb. Proof. exact (H_len n w Vs H HH). Qed.
+
+Lemma q_get p x : getb H p = Some x -> bv_get hb p = Ok x.
+Proof.
+  intros Hg. destruct Hhigh as [_ [Hget _]]. pose proof (sq_getb_lt _ _ _ Hg) as Hlt.
+  destruct (Hget p) as [y [Hy1 Hy2]]; [rewrite (proj1 q_hb_len), <- q_lenB; exact Hlt|].
+  rewrite Hy1. congruence.
+Qed.
+
+Lemma q_sel1 i : i < m -> bv_select_t sp md Identity hb i = Ok (Some (op i)).
+Proof.
+  intros Hi. destruct Hhigh as [_ [_ [Hs _]]]. rewrite Hs by (pose proof q_hb_len; lia).
+  rewrite (H_select1 n w Vs H Hw Hsorted Hbound HH i Hi). reflexivity.
+Qed.
+
+Lemma q_sel0 b : b < nb -> bv_select_t sp md Complement hb b = Ok (Some (b + c b)).
+Proof.
+  intros Hb. destruct Hhigh as [_ [_ [_ Hs]]]. rewrite Hs by (pose proof q_hb_len; lia).
+  rewrite (H_select0 n w Vs H Hw Hsorted Hbound HH b Hb). reflexivity.
+Qed.
+
+Lemma q_ones : sv_count_ones sv = m.
+Proof. unfold sv_count_ones. destruct Hlow as [Hl _]. rewrite Hl, lenN_map. reflexivity. Qed.
+Lemma q_width : sv_width sv = w.
+Proof. unfold sv_width. apply Hlow. Qed.
+Lemma q_low j : j < m -> iv_get (sv_low sv) j = Ok (V j mod 2 ^ w).
+Proof.
+  intros Hj. destruct Hlow as [_ [_ Hg]]. rewrite Hg by (rewrite lenN_map; exact Hj).
+  rewrite nthd_map by exact Hj. reflexivity.
+Qed.
+
+Lemma q_fuel : m + nb + 63 < 64 * N.of_nat (sv_fuel sv).
+Proof.
+  unfold sv_fuel. destruct Hhigh as [[Hwf _] _]. destruct (raw_wf_room _ Hwf) as [Hr _].
+  pose proof (proj1 q_hb_len) as Hl. unfold bv_len in Hl. unfold lenN in Hr. lia.
+Qed.
+
+Lemma q_V_lt j : j < m -> V j < n. Proof. apply Hbound. Qed.
+
+(* split of an index *)
+Lemma q_split i : sv_split md sv i = Ok (i / 2 ^ w, i mod 2 ^ w).
+Proof. unfold sv_split. rewrite q_width. apply split_w_ok. lia. Qed.
+
+Lemma q_hp_lt i : i < n -> i / 2 ^ w < nb.
+Proof.
+  intros Hi. apply div_lt_iff; [apply q_P_pos|]. pose proof (nb_spec n w Hw). lia.
+Qed.
+
+(* combine at the position of the j-th value *)
+Lemma q_combine j : j < m -> sv_combine md sv (op j, j) = Ok (j, V j).
+Proof.
+  intros Hj. unfold sv_combine. cbn [fst snd]. unfold one_pos.
+  pose proof q_P_pos as HP. pose proof (q_V_lt j Hj) as HV. pose proof (div_mod_eq (V j) (2 ^ w) HP) as Hdm.
+  rewrite q_width, (q_low j Hj).
+  set (q := V j / 2 ^ w) in *. set (r := V j mod 2 ^ w) in *.
+  rewrite usub_ok by lia. cbn [bind]. replace (q + j - j) with q by lia.
+  rewrite ushl_ok by lia. cbn [bind].
+  rewrite uadd_ok by lia. cbn [bind]. do 2 f_equal. lia.
+Qed.
+
+Lemma q_pos j : j < m -> sv_pos sp md sv j = Ok (op j, j).
+Proof. intros Hj. unfold sv_pos. rewrite (q_sel1 j Hj). reflexivity. Qed.
+
+(* ---- select *)
+Lemma q_select r : sv_select sp md sv r = Ok (vs_select Vs r).
+Proof.
+  unfold sv_select, vs_select. rewrite q_ones, nthN_nth_opt.
+  destruct (N.leb_spec m r) as [Hr|Hr].
+  - replace (nthN Vs r) with (@None N); [reflexivity|]. symmetry. apply nthN_None_ge. exact Hr.
+  - rewrite (q_pos r Hr). cbn [bind]. rewrite (q_combine r Hr). cbn [bind snd].
+    rewrite (nthd_some Vs r Hr). reflexivity.
+Qed.
+
+(* lower_bound / upper_bound of a high part below the number of buckets *)
+Definition c_prev (b : N) : N := if b =? 0 then 0 else c (b - 1).
+
+Lemma q_lower_bound b : b < nb -> sv_lower_bound sp md sv b = Ok (b + c_prev b, c_prev b).
+Proof.
+  intros Hb. unfold sv_lower_bound, c_prev. destruct (N.eqb_spec b 0) as [->|Hb0]; [reflexivity|].
+  rewrite (q_sel0 (b - 1)) by lia. cbn [bind opt_unwrap].
+  pose proof (c_le_m w Vs (b - 1)) as Hc. pose proof q_hb_len.
+  rewrite uadd_ok by lia. cbn [bind]. rewrite usub_ok by lia. cbn [bind]. do 2 f_equal; lia.
+Qed.
+
+Lemma q_upper_bound b : b < nb -> sv_upper_bound sp md sv b = Ok (b + c b, c b).
+Proof.
+  intros Hb. unfold sv_upper_bound. rewrite (q_sel0 b Hb). cbn [bind opt_unwrap].
+  rewrite usub_ok by lia. cbn [bind]. do 2 f_equal. lia.
+Qed.
+
+(* shorthand instances of the code lemmas *)
+Lemma q_op_mono i j : i < j -> j < m -> op i < op j.
+Proof. apply (op_mono w Vs Hw Hsorted). Qed.
+Lemma q_op_lt_len i : i < m -> op i < lenB H.
+Proof. apply (op_lt_len n w Vs H Hw Hbound HH). Qed.
+Lemma q_one i : i < m -> bv_get hb (op i) = Ok true.
+Proof. intros Hi. apply q_get. apply (H_one n w Vs H HH i Hi). Qed.
+Lemma q_gap j p : j <= m -> (j = 0 \/ op (j - 1) < p) -> (j < m -> p < op j) -> p < lenB H -> bv_get hb p = Ok false.
+Proof. intros. apply q_get. apply (H_gap n w Vs H Hw Hsorted HH j p); assumption. Qed.
+Lemma q_len_lt : lenB H < 2 ^ 64.
+Proof. rewrite q_lenB. apply q_hb_len. Qed.
+
+(* ---- the scans to the next / previous set bit of high *)
+
+Lemma q_fwd_step j h : j < m -> (j = 0 \/ op (j - 1) < h) -> h <= op j ->
+  fwd_step md sv h = Ok (if h =? op j then Done h else Continue (h + 1)).
+Proof.
+  intros Hj Hlo Hhi. unfold fwd_step. pose proof (q_op_lt_len j Hj) as Hl. pose proof q_len_lt as Hl2.
+  destruct (N.eqb_spec h (op j)) as [->|Hne].
+  - rewrite (q_one j Hj). reflexivity.
+  - rewrite (q_gap j h) by (try assumption; lia). cbn [bind]. rewrite uadd_ok by lia. reflexivity.
+Qed.
+
+Lemma q_fwd_loop j p : j < m -> (j = 0 \/ op (j - 1) < p) -> p <= op j ->
+  run_loop (sv_fuel sv) (fwd_step md sv) p = Ok (op j).
+Proof.
+  intros Hj Hlo Hhi.
+  destruct (run_loop_inv (fwd_step md sv)
+              (fun h k => (j = 0 \/ op (j - 1) < h) /\ h <= op j /\ k = op j - h)
+              (fun r => r = op j)) with (blocks := sv_fuel sv) (s := p) (k := op j - p) as [r [Hr Hp]].
+  - intros h k [Hlo' [Hhi' Hk]]. rewrite (q_fwd_step j h Hj Hlo' Hhi').
+    destruct (N.eqb_spec h (op j)) as [Heq|Hne].
+    + left. exists h. split; [reflexivity|exact Heq].
+    + right. exists (h + 1), (op j - (h + 1)). split; [reflexivity|]. split; [|lia].
+      split; [destruct Hlo'; [left; assumption|right; lia]|split; [lia|reflexivity]].
+  - split; [exact Hlo|split; [exact Hhi|reflexivity]].
+  - pose proof (q_op_lt_len j Hj). pose proof q_fuel. pose proof q_lenB. lia.
+  - rewrite Hr, Hp. reflexivity.
+Qed.
+
+Lemma q_bwd_step k h : 1 <= k -> k <= m -> op (k - 1) <= h -> (k < m -> h < op k) -> h < lenB H ->
+  bwd_step md sv h = Ok (if h =? op (k - 1) then Done h else Continue (h - 1)).
+Proof.
+  intros Hk1 Hkm Hlo Hhi Hl. unfold bwd_step.
+  destruct (N.eqb_spec h (op (k - 1))) as [->|Hne].
+  - rewrite (q_one (k - 1)) by lia. reflexivity.
+  - rewrite (q_gap k h) by (try assumption; right; lia). cbn [bind]. rewrite usub_ok by lia. reflexivity.
+Qed.
+
+Lemma q_bwd_loop k q : 1 <= k -> k <= m -> op (k - 1) <= q -> (k < m -> q < op k) -> q < lenB H ->
+  run_loop (sv_fuel sv) (bwd_step md sv) q = Ok (op (k - 1)).
+Proof.
+  intros Hk1 Hkm Hlo Hhi Hl.
+  destruct (run_loop_inv (bwd_step md sv)
+              (fun h d => op (k - 1) <= h /\ h <= q /\ d = h)
+              (fun r => r = op (k - 1))) with (blocks := sv_fuel sv) (s := q) (k := q) as [r [Hr Hp]].
+  - intros h d [Hlo' [Hhi' Hd]]. rewrite (q_bwd_step k h Hk1 Hkm Hlo') by (try lia; intros Hlt; specialize (Hhi Hlt); lia).
+    destruct (N.eqb_spec h (op (k - 1))) as [Heq|Hne].
+    + left. exists h. split; [reflexivity|exact Heq].
+    + right. exists (h - 1), (h - 1). split; [reflexivity|]. split; [|lia]. split; [lia|split; [lia|reflexivity]].
+  - split; [exact Hlo|split; [lia|reflexivity]].
+  - pose proof q_fuel. pose proof q_lenB. lia.
+  - rewrite Hr, Hp. reflexivity.
+Qed.
+
+(* ---- the set-bit iterator as an index range [j, k) of the values *)
+
+Definition it_repr (it : sv_iter) (j k : N) : Prop :=
+  snd (it_next it) = j /\ snd (it_limit it) = k /\ k <= m /\
+  (j < k -> (j = 0 \/ op (j - 1) < fst (it_next it)) /\ fst (it_next it) <= op j) /\
+  (j < k -> op (k - 1) < fst (it_limit it) /\ (k < m -> fst (it_limit it) <= op k) /\ fst (it_limit it) <= lenB H).
+
+Lemma q_it_next it j k : it_repr it j k -> j < k ->
+  exists it', it_next_f md sv it = Ok (it', Some (j, V j)) /\ it_repr it' (j + 1) k.
+Proof.
+  intros [Hn1 [Hl1 [Hkm [Hnx Hlm]]]] Hjk. destruct (Hnx Hjk) as [Hlo Hhi]. destruct (Hlm Hjk) as [Hq1 [Hq2 Hq3]].
+  unfold it_next_f. rewrite Hn1, Hl1. replace (k <=? j) with false by lia.
+  rewrite (q_fwd_loop j _ ltac:(lia) Hlo Hhi). cbn [bind].
+  rewrite (q_combine j) by lia. cbn [bind].
+  pose proof (q_op_lt_len j ltac:(lia)). pose proof q_len_lt. pose proof q_hb_len.
+  rewrite uadd_ok by lia. cbn [bind]. rewrite uadd_ok by lia. cbn [bind].
+  eexists. split; [reflexivity|]. unfold it_repr. cbn [it_next it_limit fst snd].
+  split; [reflexivity|]. split; [exact Hl1|]. split; [exact Hkm|]. split.
+  - intros Hlt. split; [right; replace (j + 1 - 1) with j by lia; lia|].
+    pose proof (q_op_mono j (j + 1) ltac:(lia) ltac:(lia)). lia.
+  - intros _. auto.
+Qed.
+
+Lemma q_it_next_none it j k : it_repr it j k -> k <= j -> it_next_f md sv it = Ok (it, None).
+Proof.
+  intros [Hn1 [Hl1 _]] Hkj. unfold it_next_f. rewrite Hn1, Hl1. replace (k <=? j) with true by lia. reflexivity.
+Qed.
+
+Lemma q_it_back it j k : it_repr it j k -> j < k ->
+  exists it', it_next_back md sv it = Ok (it', Some (k - 1, V (k - 1))) /\ it_repr it' j (k - 1).
+Proof.
+  intros [Hn1 [Hl1 [Hkm [Hnx Hlm]]]] Hjk. destruct (Hnx Hjk) as [Hlo Hhi]. destruct (Hlm Hjk) as [Hq1 [Hq2 Hq3]].
+  unfold it_next_back. rewrite Hn1, Hl1. replace (k <=? j) with false by lia.
+  rewrite usub_ok by lia. cbn [bind]. rewrite usub_ok by lia. cbn [bind].
+  rewrite (q_bwd_loop k) by (try lia; intros Hlt; specialize (Hq2 Hlt); lia). cbn [bind].
+  rewrite (q_combine (k - 1)) by lia. cbn [bind].
+  eexists. split; [reflexivity|]. unfold it_repr. cbn [it_next it_limit fst snd].
+  split; [exact Hn1|]. split; [reflexivity|]. split; [lia|]. split.
+  - intros Hlt. apply Hnx. lia.
+  - intros Hlt. split; [apply q_op_mono; lia|]. split; [intros _; replace (k - 1 - 1 + 1) with (k - 1) by lia; lia|].
+    pose proof (q_op_lt_len (k - 1) ltac:(lia)). lia.
+Qed.
+
+Lemma q_it_back_none it j k : it_repr it j k -> k <= j -> it_next_back md sv it = Ok (it, None).
+Proof.
+  intros [Hn1 [Hl1 _]] Hkj. unfold it_next_back. rewrite Hn1, Hl1. replace (k <=? j) with true by lia. reflexivity.
+Qed.
+
+(* constructors of iterators *)
+Lemma q_full_limit : it_full_limit sv = (lenB H, m).
+Proof. unfold it_full_limit. rewrite (proj1 q_hb_len), q_lenB. f_equal. apply q_ones. Qed.
+
+Lemma q_it_at j p : j <= m -> (j < m -> (j = 0 \/ op (j - 1) < p) /\ p <= op j) ->
+  it_repr (mkit (p, j) (it_full_limit sv)) j m.
+Proof.
+  intros Hj Hp. rewrite q_full_limit. unfold it_repr. cbn [it_next it_limit fst snd].
+  split; [reflexivity|]. split; [reflexivity|]. split; [lia|]. split; [exact Hp|].
+  intros Hlt. split; [apply q_op_lt_len; lia|]. split; [lia|lia].
+Qed.
+
+Lemma q_it_empty : it_repr (it_empty sv) m m.
+Proof. unfold it_empty. rewrite q_full_limit. unfold it_repr. cbn [it_next it_limit fst snd]. repeat split; lia. Qed.
+
+Lemma q_one_iter : it_repr (sv_one_iter sv) 0 m.
+Proof. unfold sv_one_iter. apply q_it_at; [lia|]. intros _. split; [left; reflexivity|lia]. Qed.
+
+Lemma q_select_iter r : exists it, sv_select_iter sp md sv r = Ok it /\ it_repr it (N.min r m) m.
+Proof.
+  unfold sv_select_iter. rewrite q_ones. destruct (N.leb_spec m r) as [Hr|Hr].
+  - exists (it_empty sv). split; [reflexivity|]. replace (N.min r m) with m by lia. apply q_it_empty.
+  - rewrite (q_pos r Hr). cbn [bind]. eexists. split; [reflexivity|]. replace (N.min r m) with r by lia.
+    apply q_it_at; [lia|]. intros _. split; [|lia].
+    destruct (N.eq_dec r 0) as [->|Hne]; [left; reflexivity|right]. apply q_op_mono; lia.
+Qed.
+
+(* ---- structure of a bucket *)
+
+Lemma q_c_le_m b : c b <= m. Proof. apply c_le_m. Qed.
+Lemma q_c_lt i b : i < c b -> V i / 2 ^ w <= b. Proof. apply (c_lt w Vs Hw Hsorted). Qed.
+Lemma q_c_ge i b : c b <= i -> i < m -> b < V i / 2 ^ w. Proof. apply (c_ge w Vs Hw Hsorted). Qed.
+Lemma q_c_mono b b' : b <= b' -> c b <= c b'. Proof. apply (c_mono w Vs Hw Hsorted). Qed.
+
+Lemma q_cprev_le b : c_prev b <= c b.
+Proof. unfold c_prev. destruct (N.eqb_spec b 0); [lia|apply q_c_mono; lia]. Qed.
+Lemma q_cprev_lt i b : i < c_prev b -> V i / 2 ^ w < b.
+Proof. unfold c_prev. destruct (N.eqb_spec b 0); [lia|]. intros Hi. pose proof (q_c_lt i (b - 1) Hi). lia. Qed.
+Lemma q_cprev_ge i b : c_prev b <= i -> i < m -> b <= V i / 2 ^ w.
+Proof. unfold c_prev. destruct (N.eqb_spec b 0) as [E|E]; [intros; subst b; apply N.le_0_l|]. intros Hi Him. pose proof (q_c_ge i (b - 1) Hi Him). lia. Qed.
+
+Lemma q_bucket_hi b j : c_prev b <= j -> j < c b -> V j / 2 ^ w = b.
+Proof.
+  intros Hlo Hhi. pose proof (q_c_le_m b). pose proof (q_c_lt j b Hhi). pose proof (q_cprev_ge j b Hlo ltac:(lia)). lia.
+Qed.
+Lemma q_bucket_op b j : c_prev b <= j -> j < c b -> op j = b + j.
+Proof. intros Hlo Hhi. unfold one_pos. rewrite (q_bucket_hi b j Hlo Hhi). reflexivity. Qed.
+
+(* the bit that follows the values of bucket b *)
+Lemma q_zero b : b < nb -> bv_get hb (b + c b) = Ok false.
+Proof. intros Hb. apply q_get. apply (H_zero n w Vs H Hw Hsorted HH b Hb). Qed.
+(* the bit before the values of bucket b, when b has predecessors *)
+Lemma q_zero_prev b : b < nb -> 1 <= c_prev b -> bv_get hb (b + (c_prev b - 1)) = Ok false.
+Proof.
+  intros Hb Hc. unfold c_prev in *. destruct (N.eqb_spec b 0) as [|Hb0]; [lia|].
+  replace (b + (c (b - 1) - 1)) with (b - 1 + c (b - 1)) by lia. apply q_zero. lia.
+Qed.
+
+(* the rank of x lies inside (or at the end of) the bucket of x *)
+Lemma q_rank_in_bucket x : x / 2 ^ w < nb ->
+  c_prev (x / 2 ^ w) <= vs_rank Vs x /\ vs_rank Vs x <= c (x / 2 ^ w).
+Proof.
+  intros Hb. set (b := x / 2 ^ w) in *. pose proof q_P_pos as HP. pose proof (q_c_le_m b) as Hcm.
+  pose proof (vs_rank_le_len Vs x) as Hrm. split.
+  - destruct (N.le_gt_cases (c_prev b) (vs_rank Vs x)) as [|Hlt]; [assumption|exfalso].
+    pose proof (q_cprev_le b).
+    pose proof (vs_rank_ge Vs x (vs_rank Vs x) Hsorted ltac:(lia) ltac:(lia)) as Hge.
+    pose proof (q_cprev_lt _ b Hlt) as Hhi.
+    apply div_lt_iff in Hhi; [|exact HP]. pose proof (div_mod_eq x (2 ^ w) HP). fold b in H0. nia.
+  - destruct (N.le_gt_cases (vs_rank Vs x) (c b)) as [|Hlt]; [assumption|exfalso].
+    pose proof (vs_rank_lt Vs x (c b) Hsorted Hlt) as Hl.
+    pose proof (q_c_ge (c b) b ltac:(lia) ltac:(lia)) as Hhi.
+    assert (Hx : x < (b + 1) * 2 ^ w) by (apply div_le_iff; [exact HP|fold b; lia]).
+    assert (Hv : (b + 1) * 2 ^ w <= V (c b)).
+    { destruct (N.le_gt_cases ((b + 1) * 2 ^ w) (V (c b))) as [|Hc]; [assumption|].
+      apply div_le_iff in Hc; [lia|exact HP]. }
+    lia.
+Qed.
+
+(* ---- get *)
+
+Lemma q_get_step i j : i < n -> c_prev (i / 2 ^ w) <= j -> j <= vs_rank Vs i ->
+  get_step md sv (i mod 2 ^ w) (i / 2 ^ w + j, j) =
+  Ok (if j <? vs_rank Vs i then Continue (i / 2 ^ w + (j + 1), j + 1) else Done (vs_get Vs i)).
+Proof.
+  intros Hi Hlo Hhi. pose proof (q_hp_lt i Hi) as Hb. pose proof q_P_pos as HP.
+  destruct (q_rank_in_bucket i Hb) as [Hr1 Hr2]. set (b := i / 2 ^ w) in *. set (R := vs_rank Vs i) in *.
+  pose proof (q_c_le_m b) as Hcm. pose proof q_hb_len as [Hl Hl2].
+  unfold get_step. cbn [fst snd]. rewrite Hl. replace (b + j <? m + nb) with true by lia.
+  rewrite (vs_get_sorted Vs i Hsorted). fold R.
+  destruct (N.ltb_spec j R) as [HjR|HjR].
+  - (* a value of the bucket below i *)
+    rewrite <- (q_bucket_op b j) by lia. rewrite (q_one j) by lia. cbn [bind].
+    rewrite (q_low j) by lia. cbn [bind].
+    pose proof (vs_rank_lt Vs i j Hsorted HjR) as Hlt.
+    destruct (mod_cmp i (V j) (2 ^ w) HP) as [Hc _]; [rewrite (q_bucket_hi b j) by lia; reflexivity|].
+    rewrite Hc. replace (i <=? V j) with false by lia.
+    rewrite (q_bucket_op b j) by lia. rewrite uadd_ok by lia. cbn [bind]. rewrite uadd_ok by lia. cbn [bind].
+    do 3 f_equal. lia.
+  - assert (j = R) by lia. subst j.
+    destruct (N.ltb_spec R (c b)) as [HRc|HRc].
+    + (* the first value >= i is in the bucket *)
+      rewrite <- (q_bucket_op b R) by lia. rewrite (q_one R) by lia. cbn [bind].
+      rewrite (q_low R) by lia. cbn [bind].
+      pose proof (vs_rank_ge Vs i R Hsorted ltac:(lia) ltac:(lia)) as Hge.
+      destruct (mod_cmp i (V R) (2 ^ w) HP) as [Hc [_ He]]; [rewrite (q_bucket_hi b R) by lia; reflexivity|].
+      rewrite Hc. replace (i <=? V R) with true by lia. replace (R <? m) with true by lia.
+      do 2 f_equal. destruct (mod_cmp (V R) i (2 ^ w) HP) as [_ [_ He']]; [rewrite (q_bucket_hi b R) by lia; reflexivity|].
+      exact He'.
+    + (* the bucket is exhausted *)
+      replace R with (c b) by lia. rewrite (q_zero b Hb). cbn [bind].
+      destruct (N.ltb_spec (c b) m) as [Hcm'|Hcm']; [|reflexivity].
+      pose proof (q_c_ge (c b) b ltac:(lia) Hcm') as Hhi'.
+      do 2 f_equal. symmetry. apply N.eqb_neq. intros Heq. rewrite Heq in Hhi'. fold b in Hhi'. lia.
+Qed.
+
+Lemma q_get_ok i : i < n -> sv_get sp md sv i = Ok (vs_get Vs i).
+Proof.
+  intros Hi. pose proof (q_hp_lt i Hi) as Hb. destruct (q_rank_in_bucket i Hb) as [Hr1 Hr2].
+  unfold sv_get. rewrite q_split. cbn [bind]. rewrite (q_lower_bound _ Hb). cbn [bind].
+  set (b := i / 2 ^ w) in *.
+  destruct (run_loop_inv (get_step md sv (i mod 2 ^ w))
+              (fun s k => exists j, s = (b + j, j) /\ c_prev b <= j /\ j <= vs_rank Vs i /\ k = vs_rank Vs i - j)
+              (fun r => r = vs_get Vs i)) with (blocks := sv_fuel sv) (s := (b + c_prev b, c_prev b))
+              (k := vs_rank Vs i - c_prev b) as [r [Hr Hp]].
+  - intros s k [j [-> [Hlo [Hhi Hk]]]]. unfold b. rewrite (q_get_step i j Hi Hlo Hhi). fold b.
+    destruct (N.ltb_spec j (vs_rank Vs i)) as [Hlt|Hge].
+    + right. exists (b + (j + 1), j + 1), (vs_rank Vs i - (j + 1)). split; [reflexivity|]. split; [|lia].
+      exists (j + 1). split; [reflexivity|]. split; [lia|]. split; [lia|reflexivity].
+    + left. eexists. split; reflexivity.
+  - exists (c_prev b). split; [reflexivity|]. split; [lia|]. split; [exact Hr1|reflexivity].
+  - pose proof (vs_rank_le_len Vs i). pose proof q_fuel. lia.
+  - rewrite Hr, Hp. reflexivity.
+Qed.
+
+(* ---- rank *)
+
+Lemma q_rank_beyond x : n <= x -> vs_rank Vs x = m.
+Proof. intros Hx. apply vs_rank_all; [exact Hsorted|]. intros i Hi. pose proof (q_V_lt i Hi). lia. Qed.
+
+Lemma q_rank_step i j : i < n -> vs_rank Vs i <= j + 1 -> j < c (i / 2 ^ w) ->
+  rank_step md sv (i mod 2 ^ w) (i / 2 ^ w + j, j) =
+  Ok (if vs_rank Vs i <=? j then (if j =? 0 then Done 0 else Continue (i / 2 ^ w + (j - 1), j - 1))
+      else Done (vs_rank Vs i)).
+Proof.
+  intros Hi Hlo Hhi. pose proof (q_hp_lt i Hi) as Hb. pose proof q_P_pos as HP.
+  destruct (q_rank_in_bucket i Hb) as [Hr1 Hr2]. set (b := i / 2 ^ w) in *. set (R := vs_rank Vs i) in *.
+  pose proof (q_c_le_m b) as Hcm. pose proof q_hb_len as [Hl Hl2].
+  unfold rank_step. cbn [fst snd].
+  destruct (N.leb_spec R j) as [HRj|HRj].
+  - rewrite <- (q_bucket_op b j) by lia. rewrite (q_one j) by lia. cbn [bind].
+    rewrite (q_low j) by lia. cbn [bind].
+    pose proof (vs_rank_ge Vs i j Hsorted HRj ltac:(lia)) as Hge.
+    destruct (mod_cmp i (V j) (2 ^ w) HP) as [Hc _]; [rewrite (q_bucket_hi b j) by lia; reflexivity|].
+    rewrite Hc. replace (i <=? V j) with true by lia.
+    destruct (N.eqb_spec j 0) as [Hj0|Hj0]; [reflexivity|].
+    rewrite (q_bucket_op b j) by lia. rewrite usub_ok by lia. cbn [bind]. do 3 f_equal. lia.
+  - assert (Hj : j + 1 = R) by lia.
+    destruct (N.le_gt_cases (c_prev b) j) as [Hin|Hout].
+    + rewrite <- (q_bucket_op b j) by lia. rewrite (q_one j) by lia. cbn [bind].
+      rewrite (q_low j) by lia. cbn [bind].
+      pose proof (vs_rank_lt Vs i j Hsorted ltac:(lia)) as Hlt.
+      destruct (mod_cmp i (V j) (2 ^ w) HP) as [Hc _]; [rewrite (q_bucket_hi b j) by lia; reflexivity|].
+      rewrite Hc. replace (i <=? V j) with false by lia. rewrite uadd_ok by lia. cbn [bind]. rewrite Hj. reflexivity.
+    + replace j with (c_prev b - 1) by lia. rewrite (q_zero_prev b Hb) by lia. cbn [bind].
+      rewrite uadd_ok by lia. cbn [bind]. do 2 f_equal. lia.
+Qed.
+
+Lemma q_rank_ok i : sv_rank sp md sv i = Ok (vs_rank Vs i).
+Proof.
+  unfold sv_rank. rewrite Hlen, q_ones. destruct (N.leb_spec n i) as [Hi|Hi].
+  - rewrite (q_rank_beyond i Hi). reflexivity.
+  - pose proof (q_hp_lt i Hi) as Hb. destruct (q_rank_in_bucket i Hb) as [Hr1 Hr2].
+    rewrite q_split. cbn [bind]. rewrite (q_upper_bound _ Hb). cbn [bind snd fst].
+    set (b := i / 2 ^ w) in *. pose proof (q_c_le_m b) as Hcm.
+    destruct (N.eqb_spec (c b) 0) as [Hc0|Hc0]; [f_equal; lia|].
+    rewrite usub_ok by lia. cbn [bind]. replace (b + c b - 1) with (b + (c b - 1)) by lia.
+    destruct (run_loop_inv (rank_step md sv (i mod 2 ^ w))
+                (fun s k => exists j, s = (b + j, j) /\ vs_rank Vs i <= j + 1 /\ j < c b /\ k = j)
+                (fun r => r = vs_rank Vs i)) with (blocks := sv_fuel sv) (s := (b + (c b - 1), c b - 1))
+                (k := c b - 1) as [r [Hr Hp]].
+    + intros s k [j [-> [Hlo [Hhi Hk]]]]. unfold b. rewrite (q_rank_step i j Hi Hlo Hhi). fold b.
+      destruct (N.leb_spec (vs_rank Vs i) j) as [Hle|Hgt].
+      * destruct (N.eqb_spec j 0) as [Hj0|Hj0].
+        -- left. exists 0. split; [reflexivity|lia].
+        -- right. exists (b + (j - 1), j - 1), (j - 1). split; [reflexivity|]. split; [|lia].
+           exists (j - 1). split; [reflexivity|]. split; [lia|]. split; [lia|reflexivity].
+      * left. eexists. split; reflexivity.
+    + exists (c b - 1). split; [reflexivity|]. split; [lia|]. split; [lia|reflexivity].
+    + pose proof q_fuel. lia.
+    + rewrite Hr, Hp. reflexivity.
+Qed.
+
+Lemma q_rank_zero_ok i : sorted_lt Vs -> sv_rank_zero sp md sv i = Ok (i - vs_rank Vs i).
+Proof.
+  intros Hs. unfold sv_rank_zero. rewrite q_rank_ok. cbn [bind]. apply usub_ok. apply vs_rank_le_arg. exact Hs.
+Qed.
+
+(* ---- successor *)
+
+Lemma q_succ_step1 i j : i < n -> c_prev (i / 2 ^ w) <= j -> j <= vs_rank Vs i ->
+  succ_step1 md sv (i mod 2 ^ w) (i / 2 ^ w + j, j) =
+  Ok (if j <? vs_rank Vs i then Continue (i / 2 ^ w + (j + 1), j + 1)
+      else if j <? c (i / 2 ^ w) then Done (inl (i / 2 ^ w + j, j)) else Done (inr (i / 2 ^ w + j, j))).
+Proof.
+  intros Hi Hlo Hhi. pose proof (q_hp_lt i Hi) as Hb. pose proof q_P_pos as HP.
+  destruct (q_rank_in_bucket i Hb) as [Hr1 Hr2]. set (b := i / 2 ^ w) in *. set (R := vs_rank Vs i) in *.
+  pose proof (q_c_le_m b) as Hcm. pose proof q_hb_len as [Hl Hl2].
+  unfold succ_step1. cbn [fst snd]. rewrite Hl. replace (b + j <? m + nb) with true by lia.
+  destruct (N.ltb_spec j R) as [HjR|HjR].
+  - rewrite <- (q_bucket_op b j) by lia. rewrite (q_one j) by lia. cbn [bind].
+    rewrite (q_low j) by lia. cbn [bind].
+    pose proof (vs_rank_lt Vs i j Hsorted HjR) as Hlt.
+    destruct (mod_cmp i (V j) (2 ^ w) HP) as [Hc _]; [rewrite (q_bucket_hi b j) by lia; reflexivity|].
+    rewrite Hc. replace (i <=? V j) with false by lia.
+    rewrite (q_bucket_op b j) by lia. rewrite uadd_ok by lia. cbn [bind]. rewrite uadd_ok by lia. cbn [bind].
+    do 3 f_equal. lia.
+  - assert (j = R) by lia. subst j.
+    destruct (N.ltb_spec R (c b)) as [HRc|HRc].
+    + rewrite <- (q_bucket_op b R) by lia. rewrite (q_one R) by lia. cbn [bind].
+      rewrite (q_low R) by lia. cbn [bind].
+      pose proof (vs_rank_ge Vs i R Hsorted ltac:(lia) ltac:(lia)) as Hge.
+      destruct (mod_cmp i (V R) (2 ^ w) HP) as [Hc _]; [rewrite (q_bucket_hi b R) by lia; reflexivity|].
+      rewrite Hc. replace (i <=? V R) with true by lia. rewrite (q_bucket_op b R) by lia. reflexivity.
+    + replace R with (c b) by lia. rewrite (q_zero b Hb). reflexivity.
+Qed.
+
+Lemma q_succ_step2 j h : j <= m -> (j = 0 \/ op (j - 1) < h) -> (j < m -> h <= op j) -> h <= lenB H ->
+  succ_step2 md sv h =
+  Ok (if j <? m then (if h =? op j then Done (Some h) else Continue (h + 1))
+      else (if h =? lenB H then Done None else Continue (h + 1))).
+Proof.
+  intros Hj Hlo Hhi Hl. unfold succ_step2. pose proof q_hb_len as [Hbl Hbl2]. pose proof q_lenB as HlB.
+  rewrite Hbl, <- HlB.
+  destruct (N.ltb_spec j m) as [Hjm|Hjm].
+  - specialize (Hhi Hjm). pose proof (q_op_lt_len j Hjm). replace (h <? lenB H) with true by lia.
+    destruct (N.eqb_spec h (op j)) as [->|Hne].
+    + rewrite (q_one j Hjm). reflexivity.
+    + rewrite (q_gap j h) by (try assumption; lia). cbn [bind]. rewrite uadd_ok by lia. reflexivity.
+  - destruct (N.eqb_spec h (lenB H)) as [->|Hne].
+    + replace (lenB H <? lenB H) with false by lia. reflexivity.
+    + replace (h <? lenB H) with true by lia.
+      rewrite (q_gap j h) by (try assumption; lia). cbn [bind]. rewrite uadd_ok by lia. reflexivity.
+Qed.
+
+Lemma q_succ_loop2 j p : j <= m -> (j = 0 \/ op (j - 1) < p) -> (j < m -> p <= op j) -> p <= lenB H ->
+  run_loop (sv_fuel sv) (succ_step2 md sv) p = Ok (if j <? m then Some (op j) else None).
+Proof.
+  intros Hj Hlo Hhi Hl. set (target := if j <? m then op j else lenB H).
+  assert (Ht : p <= target /\ target <= lenB H).
+  { unfold target. destruct (N.ltb_spec j m) as [Hjm|Hjm]; [pose proof (q_op_lt_len j Hjm); specialize (Hhi Hjm); lia|lia]. }
+  destruct (run_loop_inv (succ_step2 md sv)
+              (fun h k => (j = 0 \/ op (j - 1) < h) /\ h <= target /\ k = target - h)
+              (fun r => r = if j <? m then Some (op j) else None)) with (blocks := sv_fuel sv) (s := p) (k := target - p) as [r [Hr Hp]].
+  - intros h k [Hlo' [Hhi' Hk]]. unfold target in Hhi', Hk.
+    rewrite (q_succ_step2 j h Hj Hlo') by (destruct (N.ltb_spec j m); lia).
+    destruct (N.ltb_spec j m) as [Hjm|Hjm].
+    + destruct (N.eqb_spec h (op j)) as [Heq|Hne].
+      * left. eexists. split; [reflexivity|]. rewrite Heq. reflexivity.
+      * right. exists (h + 1), (target - (h + 1)). split; [reflexivity|]. unfold target. replace (j <? m) with true by lia.
+        split; [|lia]. split; [destruct Hlo'; [left; assumption|right; lia]|split; [lia|reflexivity]].
+    + destruct (N.eqb_spec h (lenB H)) as [Heq|Hne].
+      * left. eexists. split; reflexivity.
+      * right. exists (h + 1), (target - (h + 1)). split; [reflexivity|]. unfold target. replace (j <? m) with false by lia.
+        split; [|lia]. split; [destruct Hlo'; [left; assumption|right; lia]|split; [lia|reflexivity]].
+  - split; [exact Hlo|split; [lia|reflexivity]].
+  - pose proof q_fuel. pose proof q_lenB. lia.
+  - rewrite Hr, Hp. reflexivity.
+Qed.
+
+Lemma q_successor_ok v : exists it, sv_successor sp md sv v = Ok it /\ it_repr it (vs_rank Vs v) m.
+Proof.
+  unfold sv_successor. rewrite Hlen. destruct (N.leb_spec n v) as [Hv|Hv].
+  - exists (it_empty sv). split; [reflexivity|]. rewrite (q_rank_beyond v Hv). apply q_it_empty.
+  - pose proof (q_hp_lt v Hv) as Hb. destruct (q_rank_in_bucket v Hb) as [Hr1 Hr2].
+    rewrite q_split. cbn [bind]. rewrite (q_lower_bound _ Hb). cbn [bind].
+    set (b := v / 2 ^ w) in *. set (R := vs_rank Vs v) in *. pose proof (q_c_le_m b) as Hcm.
+    destruct (run_loop_inv (succ_step1 md sv (v mod 2 ^ w))
+                (fun s k => exists j, s = (b + j, j) /\ c_prev b <= j /\ j <= R /\ k = R - j)
+                (fun r => r = if R <? c b then inl (b + R, R) else inr (b + R, R)))
+             with (blocks := sv_fuel sv) (s := (b + c_prev b, c_prev b)) (k := R - c_prev b) as [r [Hr Hp]].
+    + intros s k [j [-> [Hlo [Hhi Hk]]]]. unfold b. rewrite (q_succ_step1 v j Hv Hlo Hhi). fold b R.
+      destruct (N.ltb_spec j R) as [Hlt|Hge].
+      * right. exists (b + (j + 1), j + 1), (R - (j + 1)). split; [reflexivity|]. split; [|lia].
+        exists (j + 1). split; [reflexivity|]. split; [lia|]. split; [lia|reflexivity].
+      * left. assert (j = R) by lia. subst j. destruct (R <? c b); eexists; split; reflexivity.
+    + exists (c_prev b). split; [reflexivity|]. split; [lia|]. split; [exact Hr1|reflexivity].
+    + pose proof q_fuel. lia.
+    + rewrite Hr, Hp. cbn [bind]. destruct (N.ltb_spec R (c b)) as [HRc|HRc].
+      * eexists. split; [reflexivity|]. apply q_it_at; [lia|]. intros _.
+        rewrite <- (q_bucket_op b R) by lia. split; [|lia].
+        destruct (N.eq_dec R 0) as [->|Hne]; [left; reflexivity|right]. apply q_op_mono; lia.
+      * assert (HR : R = c b) by lia. cbn [fst snd].
+        destruct (H_zero_gap n w Vs H Hw Hsorted HH b Hb) as [Hg1 [Hg2 Hg3]].
+        rewrite (q_succ_loop2 R (b + R)) by (rewrite ?HR; try lia; try assumption; intros Hlt; specialize (Hg2 Hlt); lia).
+        cbn [bind]. destruct (N.ltb_spec R m) as [HRm|HRm].
+        -- eexists. split; [reflexivity|]. apply q_it_at; [lia|]. intros _. split; [|lia].
+           destruct (N.eq_dec R 0) as [->|Hne]; [left; reflexivity|right]. apply q_op_mono; lia.
+        -- exists (it_empty sv). split; [reflexivity|]. replace R with m by (pose proof (vs_rank_le_len Vs v); lia).
+           apply q_it_empty.
+Qed.
+
+(* ---- predecessor *)
+
+(* the number of values <= x lies inside (or at the end of) the bucket of x *)
+Lemma q_rank_succ_in_bucket x : x / 2 ^ w < nb ->
+  c_prev (x / 2 ^ w) <= vs_rank Vs (x + 1) /\ vs_rank Vs (x + 1) <= c (x / 2 ^ w).
+Proof.
+  intros Hb. set (b := x / 2 ^ w) in *. pose proof q_P_pos as HP. pose proof (q_c_le_m b) as Hcm.
+  pose proof (vs_rank_le_len Vs (x + 1)) as Hrm. pose proof (div_mod_eq x (2 ^ w) HP) as Hx. fold b in Hx.
+  pose proof (N.mod_lt x (2 ^ w) ltac:(lia)) as Hxm. split.
+  - destruct (N.le_gt_cases (c_prev b) (vs_rank Vs (x + 1))) as [|Hlt]; [assumption|exfalso].
+    pose proof (q_cprev_le b).
+    pose proof (vs_rank_ge Vs (x + 1) (vs_rank Vs (x + 1)) Hsorted ltac:(lia) ltac:(lia)) as Hge.
+    pose proof (q_cprev_lt _ b Hlt) as Hhi.
+    apply div_lt_iff in Hhi; [|exact HP]. nia.
+  - destruct (N.le_gt_cases (vs_rank Vs (x + 1)) (c b)) as [|Hlt]; [assumption|exfalso].
+    pose proof (vs_rank_lt Vs (x + 1) (c b) Hsorted Hlt) as Hl.
+    pose proof (q_c_ge (c b) b ltac:(lia) ltac:(lia)) as Hhi.
+    assert (Hv : (b + 1) * 2 ^ w <= V (c b)).
+    { destruct (N.le_gt_cases ((b + 1) * 2 ^ w) (V (c b))) as [|Hc]; [assumption|].
+      apply div_le_iff in Hc; [lia|exact HP]. }
+    nia.
+Qed.
+
+Lemma q_pred_step x j : x < n -> vs_rank Vs (x + 1) <= j + 1 -> j < c (x / 2 ^ w) ->
+  pred_step md sv (x mod 2 ^ w) (x / 2 ^ w + j, j) =
+  Ok (if vs_rank Vs (x + 1) <=? j then (if j =? 0 then Done None else Continue (x / 2 ^ w + (j - 1), j - 1))
+      else Done (Some (x / 2 ^ w + j, j))).
+Proof.
+  intros Hx Hlo Hhi. pose proof (q_hp_lt x Hx) as Hb. pose proof q_P_pos as HP.
+  destruct (q_rank_succ_in_bucket x Hb) as [Hr1 Hr2]. set (b := x / 2 ^ w) in *. set (R := vs_rank Vs (x + 1)) in *.
+  pose proof (q_c_le_m b) as Hcm. pose proof q_hb_len as [Hl Hl2].
+  unfold pred_step. cbn [fst snd].
+  destruct (N.leb_spec R j) as [HRj|HRj].
+  - rewrite <- (q_bucket_op b j) by lia. rewrite (q_one j) by lia. cbn [bind].
+    rewrite (q_low j) by lia. cbn [bind].
+    pose proof (vs_rank_ge Vs (x + 1) j Hsorted HRj ltac:(lia)) as Hge.
+    destruct (mod_cmp x (V j) (2 ^ w) HP) as [_ [Hc _]]; [rewrite (q_bucket_hi b j) by lia; reflexivity|].
+    rewrite Hc. replace (x <? V j) with true by lia.
+    destruct (N.eqb_spec j 0) as [Hj0|Hj0]; [reflexivity|].
+    rewrite (q_bucket_op b j) by lia. rewrite usub_ok by lia. cbn [bind]. do 3 f_equal. lia.
+  - assert (Hj : j + 1 = R) by lia.
+    destruct (N.le_gt_cases (c_prev b) j) as [Hin|Hout].
+    + rewrite <- (q_bucket_op b j) by lia. rewrite (q_one j) by lia. cbn [bind].
+      rewrite (q_low j) by lia. cbn [bind].
+      pose proof (vs_rank_lt Vs (x + 1) j Hsorted ltac:(lia)) as Hlt.
+      destruct (mod_cmp x (V j) (2 ^ w) HP) as [_ [Hc _]]; [rewrite (q_bucket_hi b j) by lia; reflexivity|].
+      rewrite Hc. replace (x <? V j) with false by lia. rewrite (q_bucket_op b j) by lia. reflexivity.
+    + replace j with (c_prev b - 1) by lia. rewrite (q_zero_prev b Hb) by lia. reflexivity.
+Qed.
+
+Definition pred_index (v : N) : N := let r := vs_rank Vs (v + 1) in if r =? 0 then m else r - 1.
+
+Lemma q_predecessor_ok v : exists it, sv_predecessor sp md sv v = Ok it /\ it_repr it (pred_index v) m.
+Proof.
+  unfold sv_predecessor, sv_is_empty, pred_index. rewrite Hlen. destruct (N.eqb_spec n 0) as [Hn0|Hn0].
+  - exists (it_empty sv). split; [reflexivity|].
+    assert (Hm0 : m = 0). { destruct (N.eq_dec m 0) as [|Hne]; [assumption|]. pose proof (q_V_lt 0 ltac:(lia)). lia. }
+    pose proof (vs_rank_le_len Vs (v + 1)). replace (vs_rank Vs (v + 1) =? 0) with true by lia. apply q_it_empty.
+  - set (x := N.min v (n - 1)).
+    assert (Hx : x < n) by (unfold x; lia).
+    assert (HRx : vs_rank Vs (v + 1) = vs_rank Vs (x + 1)).
+    { unfold x. destruct (N.le_gt_cases v (n - 1)) as [Hle|Hgt]; [replace (N.min v (n - 1)) with v by lia; reflexivity|].
+      replace (N.min v (n - 1)) with (n - 1) by lia. rewrite !q_rank_beyond by lia. reflexivity. }
+    rewrite HRx. pose proof (q_hp_lt x Hx) as Hb. destruct (q_rank_succ_in_bucket x Hb) as [Hr1 Hr2].
+    rewrite q_split. cbn [bind]. rewrite (q_upper_bound _ Hb). cbn [bind snd fst].
+    set (b := x / 2 ^ w) in *. set (R := vs_rank Vs (x + 1)) in *. pose proof (q_c_le_m b) as Hcm.
+    destruct (N.eqb_spec (c b) 0) as [Hc0|Hc0].
+    { exists (it_empty sv). split; [reflexivity|]. replace (R =? 0) with true by lia. apply q_it_empty. }
+    rewrite usub_ok by lia. cbn [bind]. replace (b + c b - 1) with (b + (c b - 1)) by lia.
+    destruct (run_loop_inv (pred_step md sv (x mod 2 ^ w))
+                (fun s k => exists j, s = (b + j, j) /\ R <= j + 1 /\ j < c b /\ k = j)
+                (fun r => r = if R =? 0 then None else Some (b + (R - 1), R - 1)))
+             with (blocks := sv_fuel sv) (s := (b + (c b - 1), c b - 1)) (k := c b - 1) as [r [Hr Hp]].
+    + intros s k [j [-> [Hlo [Hhi Hk]]]]. unfold b. rewrite (q_pred_step x j Hx Hlo Hhi). fold b R.
+      destruct (N.leb_spec R j) as [Hle|Hgt].
+      * destruct (N.eqb_spec j 0) as [Hj0|Hj0].
+        -- left. exists None. split; [reflexivity|]. replace (R =? 0) with true by lia. reflexivity.
+        -- right. exists (b + (j - 1), j - 1), (j - 1). split; [reflexivity|]. split; [|lia].
+           exists (j - 1). split; [reflexivity|]. split; [lia|]. split; [lia|reflexivity].
+      * left. eexists. split; [reflexivity|]. replace (R =? 0) with false by lia. replace (R - 1) with j by lia. reflexivity.
+    + exists (c b - 1). split; [reflexivity|]. split; [lia|]. split; [lia|reflexivity].
+    + pose proof q_fuel. lia.
+    + rewrite Hr, Hp. cbn [bind]. destruct (N.eqb_spec R 0) as [HR0|HR0].
+      * exists (it_empty sv). split; [reflexivity|apply q_it_empty].
+      * cbn [fst snd].
+        assert (Hop : op (R - 1) <= b + (R - 1)).
+        { unfold one_pos. pose proof (q_c_lt (R - 1) b ltac:(lia)). lia. }
+        assert (Hnx : R < m -> b + (R - 1) < op R).
+        { intros HRm. unfold one_pos. pose proof (q_cprev_ge R b Hr1 HRm). lia. }
+        pose proof q_lenB as HlB.
+        rewrite (q_bwd_loop R (b + (R - 1))) by (try assumption; lia). cbn [bind].
+        eexists. split; [reflexivity|]. apply q_it_at; [lia|]. intros _. split; [|lia].
+        destruct (N.eq_dec (R - 1) 0) as [->|Hne]; [left; reflexivity|right]. apply q_op_mono; lia.
+Qed.
+
+(* ---- select_zero (sets only: the values are strictly increasing) *)
+
+Lemma threshold_ok : 2 <= sparse_BINARY_SEARCH_THRESHOLD.
+Proof. unfold sparse_BINARY_SEARCH_THRESHOLD. lia. Qed.
+
+Section Zero.
+Hypothesis Hstrict : sorted_lt Vs.
+Variable rank : N.
+
+(* all values before index j are followed by at most [rank] unset positions *)
+Definition run_prefix (j : N) : Prop := forall j', j' < j -> V j' <= rank + j'.
+
+Lemma q_run_prefix_ext j : j < m -> V j <= rank + j -> run_prefix (j + 1).
+Proof.
+  intros Hj Hv j' Hj'. pose proof (sorted_lt_gap Vs j' j Hstrict ltac:(lia) Hj). lia.
+Qed.
+
+Lemma q_index_le_V j : j < m -> j <= V j.
+Proof. apply sorted_lt_ge_index. exact Hstrict. Qed.
+
+Lemma q_fzr_search f : forall low high it,
+  low <= high -> high <= m -> high - low <= sparse_BINARY_SEARCH_THRESHOLD * 2 ^ N.of_nat f ->
+  it_repr it low m -> run_prefix low ->
+  exists low' it', fzr_search sp md sv (S f) rank low high (low, it) = Ok (low', it') /\
+    low' <= m /\ it_repr it' low' m /\ run_prefix low'.
+Proof.
+  pose proof threshold_ok as HT.
+  induction f as [|f IH]; intros low high it Hlh Hhm Hd Hit Hpre.
+  - cbn [fzr_search]. rewrite usub_ok by lia. cbn [bind].
+    replace (sparse_BINARY_SEARCH_THRESHOLD <? high - low) with false by (cbn in Hd; lia).
+    exists low, it. split; [reflexivity|]. split; [lia|split; [exact Hit|exact Hpre]].
+  - cbn [fzr_search]. rewrite usub_ok by lia. cbn [bind].
+    destruct (N.ltb_spec sparse_BINARY_SEARCH_THRESHOLD (high - low)) as [Hgt|Hle].
+    + set (d := high - low) in *. set (mid := low + d / 2).
+      assert (Hmid : low <= mid /\ mid < high) by (unfold mid; lia).
+      destruct (q_select_iter mid) as [itm [Hsel Hitm]]. rewrite Hsel. cbn [bind].
+      replace (N.min mid m) with mid in Hitm by lia.
+      destruct (q_it_next itm mid m Hitm ltac:(lia)) as [it' [Hnx Hit']]. rewrite Hnx. cbn [bind opt_unwrap].
+      pose proof (q_index_le_V mid ltac:(lia)) as Hge. pose proof q_hb_len as [_ Hl2].
+      rewrite usub_ok by exact Hge. cbn [bind].
+      assert (Hpow : 2 ^ N.of_nat (S f) = 2 * 2 ^ N.of_nat f) by (rewrite Nat2N.inj_succ, N.pow_succ_r'; reflexivity).
+      destruct (N.leb_spec (V mid - mid) rank) as [Hgo|Hgo].
+      * rewrite uadd_ok by lia. cbn [bind].
+        apply IH; [lia|lia| |exact Hit'|apply q_run_prefix_ext; lia].
+        rewrite Hpow in Hd. unfold mid. fold d. nia.
+      * apply IH; [lia|lia| |exact Hit|exact Hpre].
+        rewrite Hpow in Hd. unfold mid. replace (low + d / 2 - low) with (d / 2) by lia. nia.
+    + exists low, it. split; [reflexivity|]. split; [lia|split; [exact Hit|exact Hpre]].
+Qed.
+
+Lemma q_fzr_scan low it : low <= m -> it_repr it low m -> run_prefix low ->
+  exists K itK, run_loop (sv_fuel sv) (fzr_scan_step md sv rank) (it, (low, it)) = Ok (K, itK) /\
+    K <= m /\ it_repr itK K m /\ run_prefix K /\ (K < m -> rank + K < V K).
+Proof.
+  intros Hlowm Hit Hpre.
+  destruct (run_loop_inv (fzr_scan_step md sv rank)
+              (fun s k => exists j itj, s = (itj, (j, itj)) /\ j <= m /\ it_repr itj j m /\ run_prefix j /\ k = m - j)
+              (fun r => exists K itK, r = (K, itK) /\ K <= m /\ it_repr itK K m /\ run_prefix K /\ (K < m -> rank + K < V K)))
+           with (blocks := sv_fuel sv) (s := (it, (low, it))) (k := m - low) as [r [Hr Hp]].
+  - intros s k [j [itj [-> [Hjm [Hitj [Hprej Hk]]]]]]. unfold fzr_scan_step. cbn [fst snd].
+    destruct (N.ltb_spec j m) as [Hlt|Hge].
+    + destruct (q_it_next itj j m Hitj Hlt) as [it' [Hnx Hit']]. rewrite Hnx. cbn [bind].
+      pose proof (q_index_le_V j Hlt) as Hge. rewrite usub_ok by exact Hge. cbn [bind].
+      pose proof q_hb_len as [_ Hl2].
+      destruct (N.leb_spec (V j - j) rank) as [Hgo|Hgo].
+      * rewrite uadd_ok by lia. cbn [bind]. right. eexists. exists (m - (j + 1)). split; [reflexivity|]. split; [|lia].
+        exists (j + 1), it'. split; [reflexivity|]. split; [lia|]. split; [exact Hit'|]. split; [apply q_run_prefix_ext; lia|reflexivity].
+      * left. eexists. split; [reflexivity|]. exists j, itj. split; [reflexivity|]. split; [exact Hjm|]. split; [exact Hitj|]. split; [exact Hprej|]. intros _. lia.
+    + rewrite (q_it_next_none itj j m Hitj Hge). cbn [bind]. left. eexists. split; [reflexivity|].
+      exists j, itj. split; [reflexivity|]. split; [exact Hjm|]. split; [exact Hitj|]. split; [exact Hprej|]. intros Hc. lia.
+  - exists low, it. split; [reflexivity|]. split; [exact Hlowm|]. split; [exact Hit|]. split; [exact Hpre|reflexivity].
+  - pose proof q_fuel. lia.
+  - destruct Hp as [K [itK [-> Hrest]]]. exists K, itK. split; [exact Hr|exact Hrest].
+Qed.
+
+Lemma q_find_zero_run : exists K itK, sv_find_zero_run sp md sv rank = Ok (K, itK) /\
+    K <= m /\ it_repr itK K m /\ run_prefix K /\ (K < m -> rank + K < V K).
+Proof.
+  unfold sv_find_zero_run. rewrite q_ones. pose proof q_hb_len as [_ Hl2]. pose proof threshold_ok as HT.
+  destruct (q_fzr_search 63 0 m (sv_one_iter sv)) as [low [it [Hs [Hlm [Hit Hpre]]]]];
+    [lia|lia| |apply q_one_iter|intros j' Hj'; lia|].
+  { replace (m - 0) with m by lia. assert (2 ^ 64 <= sparse_BINARY_SEARCH_THRESHOLD * 2 ^ N.of_nat 63) by (change (N.of_nat 63) with 63; lia). lia. }
+  change (S 63) with 64%nat in Hs. rewrite Hs. cbn [bind snd].
+  apply q_fzr_scan; assumption.
+Qed.
+
+Lemma q_m_le_n : m <= n.
+Proof. apply sorted_lt_len_le; assumption. Qed.
+
+Lemma q_count_zeros : sv_count_zeros sv = n - m.
+Proof. unfold sv_count_zeros. rewrite Hlen, q_ones. pose proof q_m_le_n. destruct (N.leb_spec n m); lia. Qed.
+
+Lemma q_select_zero_ok :
+  (n - m <= rank -> sv_select_zero sp md sv rank = Ok None) /\
+  (rank < n - m -> exists z, sv_select_zero sp md sv rank = Ok (Some z) /\
+     z < n /\ vs_get Vs z = false /\ vs_rank Vs z + rank = z).
+Proof.
+  unfold sv_select_zero. rewrite q_count_zeros. split; intros Hr.
+  - replace (n - m <=? rank) with true by lia. reflexivity.
+  - replace (n - m <=? rank) with false by lia.
+    destruct q_find_zero_run as [K [itK [Hf [HKm [_ [Hpre Hnext]]]]]]. rewrite Hf. cbn [bind].
+    pose proof q_m_le_n as Hmn. rewrite uadd_ok by lia. cbn [bind]. exists (K + rank). split; [reflexivity|].
+    assert (HR : vs_rank Vs (K + rank) = K).
+    { apply vs_rank_char; [exact Hsorted|exact HKm| |].
+      - intros i Hi. pose proof (Hpre i Hi). lia.
+      - intros i Hi1 Hi2. specialize (Hnext ltac:(lia)).
+        pose proof (sorted_lt_gap Vs K i Hstrict Hi1 Hi2). lia. }
+    split; [lia|]. split; [|lia].
+    rewrite (vs_get_sorted Vs _ Hsorted), HR. destruct (N.ltb_spec K m) as [HKlt|]; [|reflexivity].
+    specialize (Hnext HKlt). apply N.eqb_neq. lia.
+Qed.
+
+End Zero.
+
+(* ---- first item of the iterators returned by successor / predecessor / select_iter *)
+
+Lemma q_it_first it j : it_repr it j m ->
+  it_first md sv (Ok it) = Ok (hd_error (skipN (vs_ranked Vs) j)).
+Proof.
+  intros Hit. unfold it_first. cbn [bind]. rewrite hd_skipN_ranked.
+  destruct (N.ltb_spec j m) as [Hj|Hj].
+  - destruct (q_it_next it j m Hit Hj) as [it' [Hnx _]]. rewrite Hnx. reflexivity.
+  - rewrite (q_it_next_none it j m Hit Hj). reflexivity.
+Qed.
+
+Lemma q_successor_first v : it_first md sv (sv_successor sp md sv v) = Ok (hd_error (vs_succ Vs v)).
+Proof.
+  destruct (q_successor_ok v) as [it [Hs Hit]]. rewrite Hs, (vs_succ_eq Vs v Hsorted). apply q_it_first. exact Hit.
+Qed.
+
+Lemma q_predecessor_first v : it_first md sv (sv_predecessor sp md sv v) = Ok (hd_error (vs_pred Vs v)).
+Proof.
+  destruct (q_predecessor_ok v) as [it [Hs Hit]]. rewrite Hs, (vs_pred_eq Vs v Hsorted).
+  rewrite (q_it_first it _ Hit). unfold pred_index. cbn zeta.
+  destruct (N.eqb_spec (vs_rank Vs (v + 1)) 0) as [Hz|Hz]; [|reflexivity].
+  rewrite hd_skipN_ranked. replace (m <? m) with false by lia. reflexivity.
+Qed.
+
+(* ---- the set-bit iterator under any sequence of next / next_back calls *)
+
+Lemma q_it_drive pat : forall it j k, it_repr it j k ->
+  it_drive md sv pat it = Ok (deque_run (seg Vs j k) pat).
+Proof.
+  induction pat as [|b t IH]; intros it j k Hit; [reflexivity|].
+  cbn [it_drive]. destruct b.
+  - (* next_back *)
+    destruct (N.lt_ge_cases j k) as [Hjk|Hjk].
+    + destruct (q_it_back it j k Hit Hjk) as [it' [Hb Hit']]. rewrite Hb. cbn [bind].
+      rewrite (IH it' j (k - 1) Hit'). cbn [bind]. rewrite (seg_snoc Vs j k Hjk), deque_back_snoc. reflexivity.
+    + rewrite (q_it_back_none it j k Hit Hjk). cbn [bind]. rewrite (IH it j k Hit). cbn [bind].
+      rewrite (seg_nil Vs j k Hjk). reflexivity.
+  - (* next *)
+    destruct (N.lt_ge_cases j k) as [Hjk|Hjk].
+    + destruct (q_it_next it j k Hit Hjk) as [it' [Hb Hit']]. rewrite Hb. cbn [bind].
+      rewrite (IH it' (j + 1) k Hit'). cbn [bind]. rewrite (seg_cons Vs j k Hjk). reflexivity.
+    + rewrite (q_it_next_none it j k Hit Hjk). cbn [bind]. rewrite (IH it j k Hit). cbn [bind].
+      rewrite (seg_nil Vs j k Hjk). reflexivity.
+Qed.
+
+Lemma q_one_iter_drive pat : it_drive md sv pat (sv_one_iter sv) = Ok (deque_run (vs_ranked Vs) pat).
+Proof. rewrite (q_it_drive pat _ 0 m q_one_iter), vs_ranked_seg. reflexivity. Qed.
+
+Lemma q_successor_drive v pat :
+  (let* it := sv_successor sp md sv v in it_drive md sv pat it) = Ok (deque_run (vs_succ Vs v) pat).
+Proof.
+  destruct (q_successor_ok v) as [it [Hs Hit]]. rewrite Hs. cbn [bind].
+  rewrite (q_it_drive pat _ _ _ Hit), (vs_succ_eq Vs v Hsorted), skipN_ranked_seg. reflexivity.
+Qed.
+
+Lemma q_predecessor_drive v pat :
+  (let* it := sv_predecessor sp md sv v in it_drive md sv pat it) = Ok (deque_run (vs_pred Vs v) pat).
+Proof.
+  destruct (q_predecessor_ok v) as [it [Hs Hit]]. rewrite Hs. cbn [bind].
+  rewrite (q_it_drive pat _ _ _ Hit), (vs_pred_eq Vs v Hsorted). unfold pred_index. cbn zeta.
+  destruct (N.eqb_spec (vs_rank Vs (v + 1)) 0) as [Hz|Hz]; [rewrite seg_nil by lia; reflexivity|].
+  rewrite skipN_ranked_seg. reflexivity.
+Qed.
+
+Lemma q_select_iter_drive r pat :
+  (let* it := sv_select_iter sp md sv r in it_drive md sv pat it) = Ok (deque_run (skipN (vs_ranked Vs) r) pat).
+Proof.
+  destruct (q_select_iter r) as [it [Hs Hit]]. rewrite Hs. cbn [bind].
+  rewrite (q_it_drive pat _ _ _ Hit), skipN_ranked_seg.
+  destruct (N.le_gt_cases r m) as [Hr|Hr]; [replace (N.min r m) with r by lia; reflexivity|].
+  replace (N.min r m) with m by lia. rewrite !seg_nil by lia. reflexivity.
+Qed.
+
+(* ---- the bit iterator: the duplicate-skipping scans of its parent *)
+
+Lemma q_skip_fwd a it j k : it_repr it j k ->
+  exists it' j' found, run_loop (sv_fuel sv) (skip_fwd_step md sv a) it = Ok (it', found) /\ it_repr it' j' k /\
+    ((exists i, found = Some (V i) /\ j <= i /\ i < k /\ a < V i /\ (forall i', j <= i' -> i' < i -> V i' <= a) /\ j' = i + 1) \/
+     (found = None /\ (forall i', j <= i' -> i' < k -> V i' <= a) /\ k <= j')).
+Proof.
+  intros Hit. assert (Hkm : k <= m) by apply Hit.
+  destruct (run_loop_inv (skip_fwd_step md sv a)
+              (fun itc d => exists c, it_repr itc c k /\ j <= c /\ (forall i', j <= i' -> i' < c -> V i' <= a) /\ d = k - c)
+              (fun r => exists j', it_repr (fst r) j' k /\
+                 ((exists i, snd r = Some (V i) /\ j <= i /\ i < k /\ a < V i /\ (forall i', j <= i' -> i' < i -> V i' <= a) /\ j' = i + 1) \/
+                  (snd r = None /\ (forall i', j <= i' -> i' < k -> V i' <= a) /\ k <= j'))))
+           with (blocks := sv_fuel sv) (s := it) (k := k - j) as [r [Hr Hp]].
+  - intros itc d [c [Hc [Hjc [Hsk Hd]]]]. unfold skip_fwd_step.
+    destruct (N.lt_ge_cases c k) as [Hck|Hck].
+    + destruct (q_it_next itc c k Hc Hck) as [it' [Hnx Hit']]. rewrite Hnx. cbn [bind].
+      destruct (N.ltb_spec a (V c)) as [Hgt|Hle].
+      * left. eexists. split; [reflexivity|]. cbn [fst snd]. exists (c + 1). split; [exact Hit'|].
+        left. exists c. repeat split; try assumption; lia.
+      * right. exists it', (k - (c + 1)). split; [reflexivity|]. split; [|lia].
+        exists (c + 1). split; [exact Hit'|]. split; [lia|]. split; [|reflexivity].
+        intros i' Hi1 Hi2. destruct (N.eq_dec i' c) as [->|]; [exact Hle|apply Hsk; lia].
+    + rewrite (q_it_next_none itc c k Hc Hck). cbn [bind]. left. eexists. split; [reflexivity|]. cbn [fst snd].
+      exists c. split; [exact Hc|]. right. split; [reflexivity|]. split; [intros i' Hi1 Hi2; apply Hsk; lia|exact Hck].
+  - exists j. split; [exact Hit|]. split; [lia|]. split; [intros; lia|reflexivity].
+  - pose proof q_fuel. lia.
+  - destruct r as [it' found]. cbn [fst snd] in Hp. destruct Hp as [j' [Hit' Hcases]].
+    exists it', j', found. split; [exact Hr|]. split; [exact Hit'|exact Hcases].
+Qed.
+
+Lemma q_skip_bwd lim it j k : it_repr it j k ->
+  exists it' k' found, run_loop (sv_fuel sv) (skip_bwd_step md sv lim) it = Ok (it', found) /\ it_repr it' j k' /\
+    ((exists i, found = Some (V i) /\ j <= i /\ i < k /\ V i < lim /\ (forall i', i < i' -> i' < k -> lim <= V i') /\ k' = i) \/
+     (found = None /\ (forall i', j <= i' -> i' < k -> lim <= V i') /\ k' <= j)).
+Proof.
+  intros Hit.
+  destruct (run_loop_inv (skip_bwd_step md sv lim)
+              (fun itc d => exists c, it_repr itc j c /\ c <= k /\ (forall i', c <= i' -> i' < k -> lim <= V i') /\ d = c)
+              (fun r => exists k', it_repr (fst r) j k' /\
+                 ((exists i, snd r = Some (V i) /\ j <= i /\ i < k /\ V i < lim /\ (forall i', i < i' -> i' < k -> lim <= V i') /\ k' = i) \/
+                  (snd r = None /\ (forall i', j <= i' -> i' < k -> lim <= V i') /\ k' <= j))))
+           with (blocks := sv_fuel sv) (s := it) (k := k) as [r [Hr Hp]].
+  - intros itc d [c [Hc [Hck [Hsk Hd]]]]. unfold skip_bwd_step.
+    destruct (N.lt_ge_cases j c) as [Hjc|Hjc].
+    + destruct (q_it_back itc j c Hc Hjc) as [it' [Hnx Hit']]. rewrite Hnx. cbn [bind].
+      destruct (N.ltb_spec (V (c - 1)) lim) as [Hlt|Hge].
+      * left. eexists. split; [reflexivity|]. cbn [fst snd]. exists (c - 1). split; [exact Hit'|].
+        left. exists (c - 1). split; [reflexivity|]. split; [lia|]. split; [lia|]. split; [exact Hlt|]. split; [|reflexivity].
+        intros i' Hi1 Hi2. apply Hsk; lia.
+      * right. exists it', (c - 1). split; [reflexivity|]. split; [|lia].
+        exists (c - 1). split; [exact Hit'|]. split; [lia|]. split; [|reflexivity].
+        intros i' Hi1 Hi2. destruct (N.eq_dec i' (c - 1)) as [->|]; [exact Hge|apply Hsk; lia].
+    + rewrite (q_it_back_none itc j c Hc Hjc). cbn [bind]. left. eexists. split; [reflexivity|]. cbn [fst snd].
+      exists c. split; [exact Hc|]. right. split; [reflexivity|]. split; [intros i' Hi1 Hi2; apply Hsk; lia|exact Hjc].
+  - exists k. split; [exact Hit|]. split; [lia|]. split; [intros; lia|reflexivity].
+  - assert (k <= m) by apply Hit. pose proof q_fuel. lia.
+  - destruct r as [it' found]. cbn [fst snd] in Hp. destruct Hp as [k' [Hit' Hcases]].
+    exists it', k', found. split; [exact Hr|]. split; [exact Hit'|exact Hcases].
+Qed.
+
+End Queries.
+
+(* width 64 is never produced by the rule; if it were, every split of an index would fail the shift check of a
+   debug build (and shift by 0 in a release build) *)
+Lemma split_w_64_debug i : split_w Debug 64 i = Panic POverflow.
+Proof. reflexivity. Qed.
